@@ -1,0 +1,10 @@
+// SPDX-FileCopyrightText: 2023 The Pion community <https://pion.ly>
+// SPDX-License-Identifier: MIT
+
+//go:build !verif
+
+package mux
+
+func verifEvent(string, any, ...any) {}
+
+func verifYield(string, any, ...any) {}
